@@ -2,7 +2,7 @@
 """save a confirmed seeded defect: tools/save_seed.py <ID> <A|B> "<needs>" "<detected by>" """
 import sys, os, shutil, json, re, subprocess
 pid, v, needs, detected = sys.argv[1:5]
-src = '/tmp/mut/%s/out' % pid
+src = ('/tmp/mut/%s/out' % pid) if __import__('os').path.exists('/tmp/mut/%s/out' % pid) else ('/tmp/mutdone/%s/out' % pid)
 dst = '/verif/seeded/%s-%s' % (pid, v)
 os.makedirs(dst, exist_ok=True)
 applied = '/tmp/confirm/%s%s.applied.diff' % (pid, v)
